@@ -173,6 +173,7 @@ def origin_kinds():
         "base-entire-source": Origin(MS1, EntireSourcePosition()),
         "base-no-position": Origin(MS2, NO_POSITION),
         "base-no-source": Origin(NO_SOURCE, XMLPath("/only/position")),
+        "base-nothing": Origin(NO_SOURCE, NO_POSITION),   # a base-class origin that says nothing - still not the NoOrigin singleton
     }
 
 
